@@ -3,7 +3,7 @@
 From Coq Require Export ZArith.
 From AGH Require Import Base.Run.
 From AGH Require Export Model.ClientIndex Model.ClientIDCache.
-From AGH Require Export Run.C04Conf Run.C04SMap.
+From AGH Require Export Run.C04Conf Run.C04SMap Run.C04HTTP.
 From AGH Require Model.Schedule.
 Local Open Scope N_scope.
 
@@ -56,7 +56,15 @@ Inductive case :=
           (objs : list (uid * cobj)) (res1 : cres) (res2 : option cres)
   (* round 4, aghalg.SortedMap on its own (Run/C04SMap.v): Set / Del / Clear
      calls on the real structure with what Range / Get showed after each *)
-  | CSMap (univ : list prefix) (addrs : list bytes) (steps : list (pmop * smobs)).
+  | CSMap (univ : list prefix) (addrs : list bytes) (steps : list (pmop * smobs))
+  (* round 5, the clients HTTP API (Run/C04HTTP.v): what Init loaded, then
+     add / update / delete requests through the real handlers with, after each,
+     the probes' settings, engine and safe-search verdicts, GET /control/clients
+     and /control/clients/find; at the end the probes after save + restart *)
+  | CHttp (env : henv) (global : ssconf) (g : settings) (leases : list (addr * bytes))
+          (probes : list (bytes * addr)) (finds : list (bytes * option addr * option bytes))
+          (objs : list (uid * cobj)) (start : hobs) (steps : list (hop * hobs))
+          (after : option (list (option eobs))).
 
 Definition err_code (e : err) : N :=
   match e with
@@ -137,6 +145,8 @@ Definition case_ok (c : case) : bool :=
   | CConf env srcs leases probes g objs res1 res2 =>
       conf_ok err_code eqb_settings srcs leases (cfg_of env) (he_known env) probes g objs res1 res2
   | CSMap univ addrs steps => sm_replay univ addrs pm_new steps
+  | CHttp env global g leases probes finds objs start steps after =>
+      http_ok err_code eqb_settings (cfg_of env) (he_known env) global g leases probes finds objs start steps after
   end.
 
 Definition mismatches := Base.Run.mismatches case_ok.
@@ -164,9 +174,12 @@ Definition explain (c : case) :=
   match c with
   | CHist finds names acfs g env gb0 steps =>
       (explain_steps finds names acfs g env empty_index [] gb0 steps, @nil (option bytes),
-       @None (cres * option cres), @nil sm_explained)
-  | CHand evs => ([], explain_ev [] evs, None, [])
+       @None (cres * option cres), @nil sm_explained, @None (hobs * list hobs * option (list (option eobs))))
+  | CHand evs => ([], explain_ev [] evs, None, [], None)
   | CConf env srcs leases probes g objs _ _ =>
-      ([], [], Some (conf_model err_code srcs leases (cfg_of env) (he_known env) probes g objs), [])
-  | CSMap univ addrs steps => ([], [], None, sm_explain univ addrs pm_new steps)
+      ([], [], Some (conf_model err_code srcs leases (cfg_of env) (he_known env) probes g objs), [], None)
+  | CSMap univ addrs steps => ([], [], None, sm_explain univ addrs pm_new steps, None)
+  | CHttp env global g leases probes finds objs _ steps _ =>
+      ([], [], None, [],
+       http_model err_code (cfg_of env) (he_known env) global g leases probes finds objs steps)
   end.
